@@ -192,6 +192,27 @@ def _leave_kinds(body):
     return set()
 
 
+def loop_fresh(v, use_node, name):
+    """Is `name` (re)defined in every iteration before `use_node`: a definition inside the innermost loop body that
+    contains use_node dominates it?  (Otherwise a value from a previous iteration, or from before the loop, is used.)"""
+    from .dataflow import defs_of_node
+    loops = [lp for lp in v.cfg.nodes if lp.kind == "loop" and use_node.ast is not None and
+             any(x is use_node.ast for b in lp.ast.body for x in ast.walk(b))]
+    if not loops:
+        return True
+    # innermost: the loop whose body is smallest
+    inner = min(loops, key=lambda lp: sum(1 for b in lp.ast.body for _ in ast.walk(b)))
+    if name in {x.id for x in ast.walk(inner.ast.target) if isinstance(x, ast.Name)}:
+        return True
+    for n in v.cfg.nodes:
+        if n.ast is None or n is inner:
+            continue
+        if any(x is n.ast for b in inner.ast.body for x in ast.walk(b)) and \
+                any(d.name == name and d.kind in ("assign", "unpack", "for", "with") for d in defs_of_node(n)) and v.dominates(n, use_node):
+            return True
+    return False
+
+
 def view(ctx, fi):
     cache = ctx.shared.setdefault("views", {})
     if fi not in cache:
